@@ -68,6 +68,16 @@ Theorem C04_monotone_reads : forall l st i r pre ok2 s2 res2 post ok1 s1 res1,
 Proof. exact monotone_reads_all. Qed.
 Print Assumptions C04_monotone_reads.
 
+(* the single snapshot slot: at most one flush is between its swap and its drop, and whenever a snapshot table
+   exists some flusher is in that window (a flush waits for the snapshot in flight before it swaps) *)
+Theorem C04_single_snapshot_in_flight : forall l st, forallb fresh l = true -> reach correct (init_state l) st ->
+  (forall j1 j2 f1 f2, nth_error (actors st) j1 = Some (AF f1) -> nth_error (actors st) j2 = Some (AF f2) ->
+     fl_ph f1 <> F0 -> fl_ph f2 <> F0 -> j1 = j2) /\
+  (forall m, snap (sh st) = Some m -> fmid (actors st) = true) /\
+  (forall j f m, nth_error (actors st) j = Some (AF f) -> (fl_ph f = F1 m \/ fl_ph f = F2 m) -> snap (sh st) = Some m).
+Proof. exact single_snapshot_all. Qed.
+Print Assumptions C04_single_snapshot_in_flight.
+
 (* close_drains / no deadlock: as long as some actor (writer, reader, flusher, replacer, closer) is not done, some
    step is enabled - in particular a Close in flight always completes, whatever else is in flight *)
 Theorem C04_close_drains : forall l st, forallb fresh l = true -> reach correct (init_state l) st ->
